@@ -606,7 +606,14 @@ class DBusClientConnection (txdbus.protocol.BasicDBusProtocol):
 
             self._pendingCalls[mcall.serial] = (d, timeout)
 
-            self.sendMessage(mcall)
+            try:
+                self.sendMessage(mcall)
+            except BaseException:
+                # a call that could not be sent is not outstanding
+                del self._pendingCalls[mcall.serial]
+                if timeout:
+                    timeout.cancel()
+                raise
 
             return d
         else:
